@@ -1,3 +1,3 @@
-CONSTANT Want = {"C46_SearchOrder", "C46_ExactBytes", "C46_UnknownRejected"}
+CONSTANT Want = {"C46_SearchOrder", "C46_ExactBytes", "C46_UnknownRejected", "C46_FirstHolderWins"}
 SPECIFICATION TSpec
 CHECK_DEADLOCK FALSE
